@@ -2,6 +2,7 @@
 # run every claimed check (quick by default) sequentially; print one line per property
 cd "$(dirname "$0")/.."
 tier=${1:-quick}
+mkdir -p build
 for p in $(python3 -c "import json;print(' '.join(c['property_id'] for c in json.load(open('MANIFEST.json'))['checks']))"); do
   s=$(date +%s)
   ./check $p --tier $tier > build/runall-$p.out 2> build/runall-$p.err; rc=$?
